@@ -26,7 +26,7 @@ and pattern b p =
   let add = Buffer.add_string b in
   match p with
   | M.MPatCmp (r, opr, op, o) -> add ("(PCmp" ^ rg r ^ " " ^ rg opr ^ " " ^ cmpop op ^ " "); cor b o; add ")"
-  | M.MPatType (r, tr, ty) -> add ("(PType" ^ rg r ^ " " ^ rg tr ^ " " ^ mtype ty ^ ")")
+  | M.MPatType (r, tr, ty, _) -> add ("(PType" ^ rg r ^ " " ^ rg tr ^ " " ^ mtype ty ^ ")")
   | M.MPatAny (r, ar) -> add ("(PAny" ^ rg r ^ " " ^ rg ar ^ ")")
 and cor b e =
   let add = Buffer.add_string b in
